@@ -646,5 +646,81 @@ class Clock(Part):
         return res
 
 
+class Schedules(Part):
+    name = "owned_task_scheduler"
+    desc = "a tree of 24 files with distinct secrets through anonymize_files / main, twice as it is, and - if the code hands work to an executor - under every task order of the owned scheduler (forward, reverse, rotated, evens first): identical trees"
+
+    def __init__(self, tier, seed):
+        self.tier, self.seed = tier, seed
+
+    def cases(self):
+        return [{"n": n, "entry": e} for n in (15, 16, 24, 40) for e in ("anonymize_files", "main")]
+
+    def run(self, case):
+        from netconan.anonymize_files import anonymize_files
+        from netconan.netconan import main
+
+        res = Res()
+        root = seams.scratch_dir("c13s")
+        try:
+            files = {}
+            for i in range(case["n"]):
+                files["d%d/f%02d.cfg" % (i % 3, i)] = "".join(
+                    "username user%d_%d password 0 secret_%d_%d\n peer 10.%d.%d.1\n" % (i, j, i, j, i, j) for j in range(12)) + \
+                    "enable secret sharedSecret\n"
+            ind = os.path.join(root, "in")
+            seams.write_tree(ind, files)
+
+            def go(tag, policy=None):
+                outd = os.path.join(root, "out-" + tag)
+                ctx = seams.OwnedExecutor(policy) if policy else None
+                with seams.capture_logs(), seams.capture_stdio():
+                    if ctx:
+                        ctx.__enter__()
+                    try:
+                        if case["entry"] == "main":
+                            main(["-p", "-a", "-s", "saltForTest", "-i", ind, "-o", outd])
+                        else:
+                            anonymize_files(ind, outd, anon_pwd=True, anon_ip=True, salt="saltForTest",
+                                            preserve_suffix_v4=8, preserve_suffix_v6=8)
+                    finally:
+                        if ctx:
+                            ctx.__exit__()
+                seams.restore_globals()
+                return seams.read_tree(outd), (ctx.sites if ctx else 0), (ctx.tasks if ctx else 0)
+
+            ref, _, _ = go("plain1")
+            again, _, _ = go("plain2")
+            res.evals += 2
+            res.states += 1
+            res.nt((case["n"], case["entry"]))
+            res.out(digest(repr(sorted(ref.items())), 12))
+            if again != ref:
+                bad = sorted(k for k in ref if ref.get(k) != again.get(k))[:1]
+                res.violation("two-runs-of-one-tree-differ|%s" % case["entry"],
+                              "%d files: %s differs between two identical runs" % (case["n"], bad), case)
+            for policy in ("forward", "reverse", "rotate", "evens-first"):
+                got, sites, tasks = go(policy, policy)
+                res.count("max_executor_sites", sites)
+                res.count("tasks_scheduled", tasks)
+                res.evals += 1
+                res.transitions += 1
+                if got != ref:
+                    bad = sorted(k for k in ref if ref.get(k) != got.get(k))[:1]
+                    a = (ref.get(bad[0]) or b"").decode().split("\n") if bad else []
+                    b = (got.get(bad[0]) or b"").decode().split("\n") if bad else []
+                    i = [k for k in range(min(len(a), len(b))) if a[k] != b[k]][:1]
+                    res.violation("output-depends-on-the-task-schedule|%s|%s" % (policy, case["entry"]),
+                                  "%d files, tasks run in %s order: %s line %r, in a plain run %r" % (
+                                      case["n"], policy, bad, b[i[0]] if i else None, a[i[0]] if i else None), case)
+                    break
+                if sites == 0:
+                    break      # no executor in the code: one schedule is all there is
+            res.samples.append(case)
+        finally:
+            shutil.rmtree(root, ignore_errors=True)
+        return res
+
+
 def parts(tier, seed):
-    return [Repetition(tier, seed), HashSeeds(tier, seed), History(tier, seed), GeneratedSalt(tier, seed), Leftovers(tier, seed), Clock(tier, seed)]
+    return [Repetition(tier, seed), HashSeeds(tier, seed), History(tier, seed), GeneratedSalt(tier, seed), Leftovers(tier, seed), Clock(tier, seed), Schedules(tier, seed)]
